@@ -421,7 +421,41 @@ func (x *Exec) selectOp(st *State, i *ssa.Select) Value {
 		}
 		return TupleV{x.mkConst(64, ^uint64(0)), x.mkBool(false)}
 	}
-	if i.Blocking || len(i.States) != 1 || i.States[0].Dir != types.RecvOnly {
+	if i.Blocking {
+		// Blocking select over receive cases (event loops): the environment decides which case
+		// is ready -- a fresh choice, forked; the received value is the zero value (handlers are
+		// summarised). After `selbound` selects only case 0 (cancellation) is taken.
+		n := len(i.States)
+		for _, s := range i.States {
+			if s.Dir != types.RecvOnly {
+				panic(internalErr{"unsupported select form (blocking send)"})
+			}
+		}
+		cnt := 0
+		if c, ok := st.heap[selCell].(*Term); ok {
+			cnt = int(c.val)
+		}
+		k := 0
+		if b, ok := x.params["selbound"]; !ok || cnt < b {
+			// (a fork re-executes this instruction: the choice variable is created once and kept
+			// in a reserved cell until the choice is resolved)
+			pick, have := st.heap[selPickCell].(*Term)
+			if !have {
+				pick = x.newInput(st, "select.case", 8)
+				st.pc = append(st.pc, x.mkCmp("bvult", pick, x.mkConst(8, uint64(n))))
+				st.heap[selPickCell] = pick
+			}
+			k = x.concreteIndex(st, pick, n)
+			delete(st.heap, selPickCell)
+		}
+		st.heap[selCell] = x.mkConst(64, uint64(cnt+1))
+		res := TupleV{x.mkConst(64, uint64(k)), x.mkBool(true)}
+		for _, s := range i.States {
+			res = append(res, x.zeroValue(s.Chan.Type().Underlying().(*types.Chan).Elem()))
+		}
+		return res
+	}
+	if len(i.States) != 1 || i.States[0].Dir != types.RecvOnly {
 		panic(internalErr{"unsupported select form"})
 	}
 	p := x.val(st, i.States[0].Chan).(PtrV)
@@ -439,6 +473,8 @@ func (x *Exec) selectOp(st *State, i *ssa.Select) Value {
 }
 
 const wallCell = -100
+const selCell = -101
+const selPickCell = -102
 
 func (x *Exec) timerIntrinsic(st *State, full string, args []Value, call *ssa.Call) (Value, bool) {
 	switch full {
